@@ -42,7 +42,8 @@ def gen_case(rng, tier, idx):
     aw = rng.choice([0, 1, 2, 3, 4, 5, 6, 8, 10, 12, 16, 24, 30])
     feats = [f for f in ALL_FEATURES if rng.random() < 0.5]
     return {"aw": aw, "dw": dw, "gran": gran, "features": feats,
-            "al": rng.choice([0, 0, 0, 1, 2, 3]), "nsubs": rng.choice([0, 1, 2, 3, 4, 5, 8]),
+            "al": rng.choice([0, 0, 0, 1, 2, 3]), "nsubs": rng.choice([0, 1, 2, 3, 4, 5, 8, 17, 20, 33]) if aw >= 6 else rng.choice([0, 1, 2, 3, 4, 5]),
+            "query_between_adds": rng.random() < 0.4,
             "cycles": (250 if tier == "quick" else 700) * (8 if rng.random() < 0.04 else 1)}
 
 
@@ -57,13 +58,14 @@ def run_case(case):
     for i in range(case["nsubs"]):
         sparse = rng.random() < 0.3 and gbits > 0
         sfeat = {f for f in ALL_FEATURES if rng.random() < 0.5 and (f in dfeat or f in ("lock", "cti", "bte"))}
+        many = case["nsubs"] > 8
         if sparse:
             s_dw = s_gran = gran
-            s_aw = rng.randint(gbits, max(gbits, map_aw - 1))      # at least one bus word long
+            s_aw = rng.randint(gbits, max(gbits, (map_aw - 5) if many else (map_aw - 1)))      # at least one bus word long
             s_map_aw = max(1, s_aw)
         else:
             s_dw, s_gran = dw, gran
-            s_aw = rng.randint(0, max(0, aw - 1))
+            s_aw = rng.randint(0, max(0, (aw - 6) if many else (aw - 1)))
             s_map_aw = max(1, s_aw + gbits)
         if s_map_aw >= map_aw and not (s_map_aw == map_aw and case["nsubs"] == 1):
             continue
@@ -82,6 +84,10 @@ def run_case(case):
         except ValueError:
             continue
         subs.append((sub, sparse, sfeat))
+        if case.get("query_between_adds") and rng.random() < 0.5:
+            # read-only queries on a partly populated decoder must not change what is built later
+            mm_ = dec.bus.memory_map
+            list(mm_.window_patterns()), list(mm_.windows()), list(mm_.all_resources()), mm_.decode_address(0)
     by_map = {id(s.memory_map): (s, sp, sf) for s, sp, sf in subs}
     wins = []
     for w, _n, (s, e, ratio) in dec.bus.memory_map.windows():
